@@ -2,6 +2,7 @@ import Pandora.Drv.Util
 import Pandora.Spec.C18
 import Pandora.Model.C18Reg
 import Pandora.Model.C18Engine
+import Pandora.Spec.C18Sess
 
 namespace Pandora.Drv.C18
 open Pandora.Drv Pandora.Model.C18 Pandora.Spec.C18
@@ -378,7 +379,140 @@ def handleHist (input impl : String) : String × String :=
             (m, "fail:fresh:products of different creations share a configuration object or a later creation disturbed an earlier product")
           else (m, "ok")
 
+/-! ### `sess=1`: one registry, several registrations, any interleaving of operations -/
+
+namespace Sess
+open Pandora.Model.C18Sess Pandora.Spec.C18Sess
+
+def parseOp (s : String) : Option Op :=
+  match s.splitOn ":" with
+  | ["R", t, name, sh, d, ff, cf, rf] => do
+    let ff ← parseNats ff
+    let cf ← parseNats cf
+    let rf ← parseNats rf
+    pure (.register { ptype := ← t.toNat?, name := name, sh := ← parseShape sh, dflt := ← parseCfg d,
+                      fillFault := ff.contains, ctorFault := cf.contains, factFault := rf.contains })
+  | ["N", t, name, fill, u] => do pure (.new (← t.toNat?) name (← parseCfg u) (fill == "1"))
+  | ["F", t, name, e, fill, u] => do pure (.newFactory (← t.toNat?) name (e == "1") (← parseCfg u) (fill == "1"))
+  | ["C", h] => do pure (.call (← h.toNat?))
+  | ["L", t] => do pure (.lookup (← t.toNat?))
+  | _ => none
+
+/-- the shape of the registration an operation ran on (for printing the constructor's argument) -/
+def shapeOfSlot (ops : List Op) (outs : List Out) (i : Nat) : Shape :=
+  let regs := (ops.zip outs).filterMap fun x =>
+    match x.1, x.2 with
+    | .register r, .accepted => some r.sh
+    | _, _ => none
+  regs.getD i ⟨false, .none, false, false, false, .absent⟩
+
+def showOut (sh : Nat → Shape) : Out → String
+  | .accepted => "acc"
+  | .refused => "ref"
+  | .noEntry _ => "noentry"
+  | .noHandle => "nohandle"
+  | .found b => if b then "found.1" else "found.0"
+  | .step i s =>
+    let shown := !s.evs.isEmpty || (product? s).isSome
+    s!"{if shown then toString i else "-"}~{"|".intercalate (s.evs.map (showEv (sh i)))}>{showRes s.res}"
+
+/-- the harness numbers the configuration objects of every registration in the order in which it first SEES them -/
+def renumberOuts (sh : Nat → Shape) (outs : List Out) : List Out :=
+  let shown (i : Nat) (s : Step) : List (Nat × Nat) :=
+    ((s.evs.filterMap fun e =>
+      match e with
+      | .fill _ a _ => a
+      | .ctor _ c _ => if (sh i).cfg = .ptr then c else none
+      | _ => none) ++
+    (match s.res with | .ok p => p.cell.toList | _ => [])).map fun c => (i, c)
+  let order := (outs.flatMap fun o => match o with | .step i s => shown i s | _ => []).foldl
+    (fun acc c => if acc.contains c then acc else acc ++ [c]) []
+  let ren (i c : Nat) : Nat :=
+    -- identity 0 of a shared default configuration is owned by the default-config function from registration on
+    if (sh i).dflt = .shared then c else
+    (((order.filter (·.1 == i)).findIdx? (· == (i, c))).getD c)
+  outs.map fun o =>
+    match o with
+    | .step i s =>
+      .step i { evs := s.evs.map fun e =>
+                  match e with
+                  | .fill k a ok => .fill k (a.map (ren i)) ok
+                  | .ctor k c ok => .ctor k (c.map (ren i)) ok
+                  | e => e
+                res := match s.res with
+                  | .ok p => .ok { p with cell := p.cell.map (ren i) }
+                  | r => r }
+    | o => o
+
+def showViews (vs : List (Option Int)) : String :=
+  ",".intercalate (vs.map fun v => match v with | some x => toString x | none => "-")
+
+def parseOut (s : String) : Option Out :=
+  if s == "acc" then some .accepted
+  else if s == "ref" then some .refused
+  else if s == "noentry" then some (.noEntry false)
+  else if s == "nohandle" then some .noHandle
+  else if s == "found.1" then some (.found true)
+  else if s == "found.0" then some (.found false)
+  else
+    match s.splitOn "~" with
+    | [slot, st] => do
+      let st ← parseStep st
+      -- "-": nothing ran and nothing came out, any registration fits: the Spec judges it for the one that was meant
+      pure (.step (slot.toNat?.getD 1000000) st)
+    | _ => none
+
+/-- zero-valued fields of a product of a constructor without config -/
+def zeroOut (sh : Nat → Shape) : Out → Out
+  | .step i s =>
+    if (sh i).cfg = .none then
+      match s.res with
+      | .ok p => if p.seen == [(0, 0), (1, 0), (2, 0), (3, 0)] then .step i { s with res := .ok { p with seen := [] } } else .step i s
+      | _ => .step i s
+    else .step i s
+  | o => o
+
+/-- `-` as slot: put the slot the Spec resolves to -/
+def fillSlots (ops : List Op) (outs : List Out) : List Out :=
+  let rec go (tr : Track) : List Op → List Out → List Out
+    | op :: ops, out :: outs =>
+      let out := match out with
+        | .step 1000000 s => (match target tr op with | some (i, _, _) => .step i s | none => out)
+        | o => o
+      out :: go (trackStep tr op out) ops outs
+    | _, outs => outs
+  go Track.empty ops outs
+
+def handleSess (input impl : String) : String × String :=
+  let kv := parseKV input
+  match (splitList (getS kv "ops") "|").mapM parseOp with
+  | none => ("-", "fail:driver:unparsable session")
+  | some ops =>
+    let mo := run ops
+    let sh := shapeOfSlot ops mo.outs
+    let m := s!"sess outs={";".intercalate ((renumberOuts sh mo.outs).map (showOut sh))} views={showViews mo.views}"
+    let ikv := parseKV impl
+    let toks := splitList (getS ikv "outs") ";"
+    if toks.any (·.endsWith ">nil") then
+      (m, "fail:errors:nil component with nil error (an error did not reach the caller)")
+    else if toks.any (fun t => (t.splitOn ">err.other:").length > 1 || (t.splitOn ">panic.other:").length > 1) then
+      (m, "fail:errors:an error or panic that is none of the constructor / config errors reached the caller")
+    else if toks.any (fun t => t.startsWith "x~") then
+      (m, "fail:lookup:user code of a registration other than the one registered for this type and name ran")
+    else if toks.any (fun t => t.endsWith ">noentry") then
+      (m, "fail:lookup:user code ran although the lookup failed")
+    else
+    match toks.mapM parseOut, (splitList (getS ikv "views")).mapM (fun v => if v == "-" then some none else v.toInt?.map some) with
+    | some outs, some views =>
+      let outs := fillSlots ops outs
+      let shI := shapeOfSlot ops outs
+      (m, judgeSess ops ⟨outs.map (zeroOut shI), views⟩ fields)
+    | _, _ => (m, s!"fail:crash:unparsable observation {impl.take 160}")
+
+end Sess
+
 def handle : Handler := fun input impl =>
+  if getS (parseKV input) "sess" == "1" then Sess.handleSess input impl else
   if getS (parseKV input) "hist" == "1" then handleHist input impl else
   if getS (parseKV input) "via" == "reg" then handleReg (parseKV input) impl else
   if getS (parseKV input) "via" == "engine" then handleEngine input impl else
